@@ -18,6 +18,11 @@
         phandle <x> <y> <z> <width> <height> <depth> ; <pv> [; <pv>]
                                           out: ok <w1> <h1> [<w2> <h2>] | <gains...>   (handle: the calc_pv_spread arguments per end
                                                                                  distance, and the combination of the given results)
+        phandlefull <n> <x> <y> <z> <width> <height> <depth> ; <p...> ; <w> <h> <s...> , <w> <h> <s...> ... | none
+                                          out: ok <gains...>      (the whole of `polarHandle n p s position width height depth`:
+                                                                                 p = the recorded point-source answer, s = the recorded
+                                                                                 normalised spread answers keyed by the clamped width/height
+                                                                                 they were computed for; a missing key gives an empty vector)
         divpos <cart 0/1> <x> <y> <z> <value|none> <azimuthRange|none> <positionRange|none> <v2 0/1>
                                           out: ok <x y z> , <x y z> ...         (diverge, positions only)
         full <P|C> <n> ; <a> <b> <c> ; <offset a b c | none> ; <value|none> <azimuthRange|none> <positionRange|none> <v2 0/1> ;
@@ -260,6 +265,22 @@ def answer (line : String) : String :=
         if ex.length != pvs.length then "bad-shape" else
         s!"ok {showFs (ex.flatMap fun e => [e.1, e.2])} | {showFs (polarCombine pvs)}"
       | _, _ => "bad-op"
+    | ["phandlefull", n, x, y, z, w, h, d], [p, tab] =>
+      let parseEntry (e : String) : Option (Float × Float × List Float) :=
+        match parseFs e with
+        | some (a :: b :: g) => some (a, b, g)
+        | _ => none
+      let tabp : Option (List (Float × Float × List Float)) :=
+        if words tab == ["none"] then some [] else (tab.splitOn ",").mapM parseEntry
+      match n.toNat?, [x, y, z, w, h, d].mapM parseF, parseFs p, tabp with
+      | some n, some [x, y, z, w, h, d], some p, some tab =>
+        -- the spreading panner as an oracle: the recorded answer for (within 1e-9 of) the clamped width and height
+        let s : Float → Float → List Float := fun wc hc =>
+          match tab.find? (fun e => nearF e.1 wc && nearF e.2.1 hc) with
+          | some e => e.2.2
+          | none => []
+        s!"ok {showFs (polarHandle n p s (x, y, z) w h d)}"
+      | _, _, _, _ => "bad-op"
     | ["divpos", c, x, y, z, v, ar, pr, v2], [] =>
       match [x, y, z].mapM parseF, parseOpt v, parseOpt ar, parseOpt pr with
       | some [x, y, z], some v, some ar, some pr =>
